@@ -14,6 +14,7 @@ Record mxfer := {
   mx_df : nat; mx_dc : nat;
   mx_Rs : list (list Qc); mx_Ps : list (list Qc);
   mx_Rcoll : list (list Qc); mx_Pcoll : list (list Qc);  (* 1-based rows/columns, row/column 0 unused *)
+  mx_finter : bool;
 }.
 Record mcase := {
   m_t0 : Qc; m_fine : mlevel; m_rest : list (mxfer * mlevel);
@@ -25,7 +26,7 @@ Definition level_of (l : mlevel) : @level Qc nat :=
      lfeval := feval_of (ml_prob l); lsolve := solve_of (ml_prob l); lpre := ml_pre l; lpost := ml_post l |}.
 Definition xfer_of (x : mxfer) : @xfer Qc nat :=
   {| xRs := matvec (mx_Rs x) (mx_df x); xPs := matvec (mx_Ps x) (mx_dc x);
-     xRcoll := mat (mx_Rcoll x); xPcoll := mat (mx_Pcoll x) |}.
+     xRcoll := mat (mx_Rcoll x); xPcoll := mat (mx_Pcoll x); xfinter := mx_finter x |}.
 
 Definition m_run (C : mcase) : list Qc :=
   let L := m_fine C in
